@@ -52,10 +52,12 @@ class FaultPlan:
     strikes, or index of the command (counted over the whole history) whose reply a server-level fault replaces.
     `at` and `kind` may be symbolic ints."""
 
-    def __init__(self, at=-1, kind=F_NONE, exc=None):
+    def __init__(self, at=-1, kind=F_NONE, exc=None, after=False):
         self.at = at
         self.kind = kind
         self.exc = exc      # for C10: an exception *instance factory* raised instead of the socket error
+        self.after = after  # C10: the interruption arrives after the socket call took effect (bytes sent / consumed)
+        self.pending = None
         self.fired = False
         self.fired_where = None
 
@@ -147,6 +149,8 @@ class SimSocket:
                 raise ConnectionResetError(errno.ECONNRESET, "injected at sendall")
             raise OSError(errno.EPIPE, "injected at sendall")
         net.sent.append((self.sid, net.current_call, data))
+        if net.request_hook is not None:
+            data = net.request_hook(data)   # C04: map a request carrying symbolic bytes to its concrete placeholder form
         conn = self.conn
         conn.delivered = 0
         if net.concrete:
@@ -179,6 +183,9 @@ class SimSocket:
                 if net.reply_hook is not None:
                     reply = net.reply_hook(reply)
                 conn.queue.append([reply, net.current_call])
+        if net.plan is not None and net.plan.pending is not None:
+            exc, net.plan.pending = net.plan.pending, None
+            raise exc()
 
     def recv(self, n):
         net = self.net
@@ -235,6 +242,9 @@ class SimSocket:
             seg[0] = data[k:]
         conn.delivered += k
         net.delivered_total += k
+        if net.plan is not None and net.plan.pending is not None:
+            exc, net.plan.pending = net.plan.pending, None
+            raise exc()     # the bytes were consumed from the connection but never reached the caller
         return out
 
     def _usable(self, what):
@@ -296,6 +306,7 @@ class NetSim:
         self.expect_io_timeout = "any"
         self.check_failed_reuse = False
         self.tls_expected = False
+        self.request_hook = None
         self.reply_hook = None            # C03/C04: splice symbolic bytes into the concrete reply
         self.env_plan = None              # C06: (event name, occurrence index, exception) environment faults
         self.env_counts = {}
@@ -354,6 +365,9 @@ class NetSim:
             plan.fired_where = (where, idx)
             if plan.exc is not None:
                 sock.failed_call = True
+                if plan.after and where in ("sendall", "recv"):
+                    plan.pending = plan.exc
+                    return F_NONE
                 raise plan.exc()
             return plan.kind
         return F_NONE
